@@ -7,6 +7,7 @@ from .. import paths
 from ..core import FUNC, call_attr, calls_in, const, dotted, is_const, kwarg, norm, text, walk_local
 
 EXPLANATION = [
+    'C15.filename-resolved: JsonKeyStore canonicalises a configured file name with symbolic links followed (resolve / realpath), which the atomic os.replace in save() relies on.',
     "C15.namespace-resolution: no accessor of JsonKeyStore other than load() indexes the database by self.namespace: all of them work on the key map load() resolved (which may be the file's only namespace adopted by the default store), so get / get_all / update / delete agree.",
     'C15.one-shot: no name bound to a generator expression or to filter() / map() / zip() / reversed() / enumerate() is read in more than one consuming position or inside a loop that evaluates it repeatedly: such an iterator is empty after its first walk.',
     'C15.walrus: no assignment expression in bumble.keys binds the result of a comparison (`(t := x is not None)`): optional fields read from the file keep their stored value.',
@@ -301,7 +302,27 @@ def namespace_resolution(ctx):
     R.check(n >= 4, rule, 'bumble.keys.JsonKeyStore | accessors', f'{n} accessors go through load()', f'only {n} accessors found')
 
 
+def filename_resolved(ctx):
+    """JsonKeyStore replaces its file atomically (temporary file + os.replace next to it): the file name is therefore
+    canonicalised with symbolic links followed (Path.resolve / os.path.realpath), or a store opened through a link replaces
+    the link and leaves the shared file untouched."""
+    R, p = ctx.r, ctx.p
+    rule = 'C15.filename-resolved'
+    fn = p.find(f'{K}.JsonKeyStore.__init__')
+    if fn is None:
+        R.bad(rule, f'{K}.JsonKeyStore.__init__', 'anchor missing')
+        return
+    sts = [s_ for s_ in walk_local(fn) if isinstance(s_, ast.Assign) and dotted(s_.targets[0]) == 'self.filename' and any(isinstance(x, ast.Name) and x.id == 'filename' for x in ast.walk(s_.value))]
+    R.check(len(sts) == 1, rule, f'{K}.JsonKeyStore.__init__ | configured file name', 'one assignment from the `filename` argument', f'{len(sts)} assignments', p.loc(fn))
+    for s_ in sts:
+        ok = any(call_attr(c) in ('resolve', 'realpath') for c in calls_in(s_))
+        R.check(ok, rule, f'{K}.JsonKeyStore.__init__ | links followed', 'resolve() / realpath()', f'`{norm(s_)[:80]}` does not follow symbolic links: save() writes "<link>.tmp" and os.replace() turns the link itself into a regular file - the shared database is never updated and the two paths diverge', p.loc(s_))
+    sv = p.find(f'{K}.JsonKeyStore.save')
+    R.check(sv is not None and any(dotted(c.func) == 'os.replace' for c in calls_in(sv)), rule, f'{K}.JsonKeyStore.save | atomic replace', 'save() replaces the file with os.replace', 'save() no longer uses os.replace (anchor of this rule)', p.loc(sv) if sv is not None else '')
+
+
 RULES = [
+    ('C15.filename-resolved', filename_resolved),
     ('C15.namespace-resolution', namespace_resolution),
     ('C15.one-shot', one_shot_rule),
     ('C15.walrus', walrus_rule),
